@@ -31,7 +31,7 @@ ASSUMPTIONS = [
     "a recomputed loss within 1e-12 relative of the recorded one counts as equal (BLAS summation order may depend on buffer alignment); counted as loss_ulp_wobble",
     "third-party estimator failures on extreme histories end the run early (counted), they are C11's subject, not C02's",
 ]
-REQUIRED_COUNTERS = {"batch_size_changed_between_calls": 8, "runs_converging_every_batch": 5, "rl_scheduled_runs": 5, "failed_batches_then_continued": 5, "model_invocations_matched": 200, "runs_with_repeated_proposals": 5, "runs_with_tied_losses": 4, "runs": 30, "rows_checked": 200, "members_decoded": 300, "losses_recomputed": 200, "snapshots": 100,
+REQUIRED_COUNTERS = {"cases_with_as_many_periods_as_variables": 3, "batch_size_changed_between_calls": 8, "runs_converging_every_batch": 5, "rl_scheduled_runs": 5, "failed_batches_then_continued": 5, "model_invocations_matched": 200, "runs_with_repeated_proposals": 5, "runs_with_tied_losses": 4, "runs": 30, "rows_checked": 200, "members_decoded": 300, "losses_recomputed": 200, "snapshots": 100,
                      "multi_call_runs": 10, "extreme_runs": 5, "tile_repeat_distinguishable": 5}
 SHARDS = {"quick": 16, "thorough": 16}
 SHARD_WATCHDOG = {"quick": 1500, "thorough": 10800}
@@ -56,9 +56,12 @@ def run_case(desc, ctx):
     plainish = model in ("plain", "mut", "slow")
     kinds = G.CHEAP + ["XGBoost"] if (cheap or not plainish) else None
     rl = desc["i"] % 6 == 4 and n_jobs == 1 and plainish      # the RL scheduler designates the samplers (bootstrap Halton first, then the agent's choices)
+    square = model == "plain" and desc["i"] % 10 == 8      # simulation length == number of variables (4-6): a member's series is a square array
+    if square:
+        c["cases_with_as_many_periods_as_variables"] = 1
     cfg = CG.gen_config(rng, kinds=(["RandomUniform", "RSequence", "ParticleSwarm", "Halton"] if rl else kinds), model=model, max_bs=4, n_samplers=int(rng.integers(1, 6)),
-                        scheduler="rl" if rl else None,
-                        loss_kinds=["minkowski"] if tied else (["minkowski", "minkowski", "msm", "fourier"] if not plainish else None),
+                        scheduler="rl" if rl else None, square=square,
+                        loss_kinds=["minkowski"] if (tied or square) else (["minkowski", "minkowski", "msm", "fourier"] if not plainish else None),
                         **({"max_points": 3, "max_params": 2} if tiny else {}))
     if not plainish and rng.random() < 0.7:  # make sure a history reader meets the extreme losses
         cfg["lineup"].append(G.gen_sampler_desc(rng, str(rng.choice(["XGBoost", "BestBatch", "ParticleSwarm"])), batch_size=1))
